@@ -50,6 +50,35 @@ GROUP = dict(
                 reveal_strlit("npm"); reveal_strlit("nuget"); reveal_strlit("pypi"); }''',
              hints=[(r'\}\s*\}\s*$', 'before', '''        ;proof { }''')] if False else [],
              ),
+        # R9: the phf table, entry by entry: every key is the name of its variant and every variant has an entry (C15).
+        # The lookup itself (perfect hash + UniCase comparison) is the dependency's business.
+        dict(id='U-ptname.table', kind='block', file='purl/src/package_type.rs', header=r'static PACKAGE_TYPES: phf::Map',
+             properties=['C15', 'C08'],
+             rw=[('R9', r"static PACKAGE_TYPES: phf::Map<UniCase<&'static str>, PackageType> = phf_map! \{",
+                  'pub proof fn package_types_table()\n    ensures forall|t: PackageType| #[trigger] table_has(t)\n{\n    let mut seen: Set<PackageType> = Set::empty();', 1),
+                 ('R9', r'UniCase::ascii\(("[^"]*")\) => (PackageType::\w+),',
+                  r'    reveal_strlit(\1); assert(\1@ =~= type_name(\2)); assert(table_entry(\1@, \2)); seen = seen.insert(\2);', '+'),
+                 ('R9', r'\}\s*$', '''    assert forall|t: PackageType| #[trigger] table_has(t) by {
+        match t {
+            PackageType::Cargo => { assert(seen.contains(PackageType::Cargo)); },
+            PackageType::Gem => { assert(seen.contains(PackageType::Gem)); },
+            PackageType::Golang => { assert(seen.contains(PackageType::Golang)); },
+            PackageType::Maven => { assert(seen.contains(PackageType::Maven)); },
+            PackageType::Npm => { assert(seen.contains(PackageType::Npm)); },
+            PackageType::NuGet => { assert(seen.contains(PackageType::NuGet)); },
+            PackageType::PyPI => { assert(seen.contains(PackageType::PyPI)); },
+        }
+    }
+}''', 1)]),
+        dict(id='T.UnsupportedPackageType', kind='struct', name='UnsupportedPackageType', file='purl/src/package_type.rs'),
+        # R2: `impl FromStr for PackageType { fn from_str }` hoisted; the lookup is an assumed dependency contract
+        dict(id='U-ptname.from_str', file='purl/src/package_type.rs', fn='from_str', ctx=r'impl FromStr for PackageType',
+             properties=['C15', 'C08', 'C05'],
+             sig_rw=[('R2', r'fn from_str\(s: &str\) -> Result<Self, Self::Err>', 'fn package_type_from_str(s: &str) -> Result<PackageType, UnsupportedPackageType>', 1)],
+             contract='''    ensures
+        r is Ok ==> lower_ascii_seq(s@) == type_name(r->Ok_0),
+        (exists|t: PackageType| lower_ascii_seq(s@) == type_name(t)) ==> r is Ok''',
+             rw=[('R3', r'PACKAGE_TYPES\.get\(&UniCase::new\(s\)\)\.copied\(\)', 'x_table_lookup(s)', '*')]),
         dict(id='spec.PackageType', kind='raw', wrap='impl PurlShape for PackageType',
              text='''    type Error = PackageError;
     open spec fn type_text(&self) -> Seq<char> { type_name(*self) }
